@@ -79,13 +79,64 @@ def arg_term(interp: Interp, st: St, args, kwargs):
         raise Unsupported("keyword arguments to a symbolic callable")
     if len(args) == 1:
         return interp.term(st, args[0])
-    return interp.term(st, V("tuple", list(args)))
+    ts = [interp.term(st, a) for a in args]
+    return z3.Function(f"args_{len(ts)}", *([T.Val] * len(ts)), T.Val)(*ts)
+
+
+def call_symmethod(interp, st, f, args, kwargs):
+    _, obj, name = f.tag
+    kind = interp.method_disciplines[name]
+    if kwargs:
+        raise Unsupported("keyword arguments to a symbolic method")
+    ts = [interp.term(st, obj)] + [interp.term(st, a) for a in args]
+    interp.ctx.assume_note(f"method `{name}` of symbolic objects: deterministic and total ({kind})")
+    st.calls.append((name, tuple(ts)))
+    if kind == "PRED":
+        fn = z3.Function(f"mcall_{name}", *([T.Val] * len(ts)), T.B)
+        yield st, ("ok", V("bool", fn(*ts)))
+        return
+    if kind == "ROUTE":
+        # contract of RequestRouter.route_handler (proved for both router classes in contracts/routers.py):
+        # returns (handler, next offset) with offset < next offset <= max offset, or raises StopIteration
+        router, _mediator, request, off = ts
+        offi = args[2].d if args[2].kind == "int" else T.F_ival(off)
+        found = z3.Function("route_found", T.Val, T.Val, T.I, T.B)(router, request, offi)
+        rh = z3.Function("route_h", T.Val, T.Val, T.I, T.Val)(router, request, offi)
+        ro = z3.Function("route_off", T.Val, T.Val, T.I, T.I)(router, request, offi)
+        rmax = z3.Function("route_max", T.Val, T.I)(router)
+        for s, fb in interp.fork_on(st, found):
+            if fb:
+                s.assume(z3.And(ro > offi, ro <= rmax))
+                yield s, ("ok", V("tuple", [V("sym", t=rh), V("int", ro)]))
+            else:
+                yield s, (RAISE, interp.make_exception(s, StopIteration, []))
+        return
+    fn = z3.Function(f"mcall_{name}", *([T.Val] * len(ts)), T.Val)
+    yield st, ("ok", V("sym", t=fn(*ts)))
+
+
+@handler("$getitem_symbolic")
+def getitem_symbolic(interp, st, obj, key):
+    if obj.kind == "sym" and key.kind in ("const", "int"):
+        kt = z3.IntVal(key.d) if key.kind == "const" and type(key.d) is int else key.d if key.kind == "int" else None
+        if kt is not None:
+            interp.ctx.assume_note("integer subscripts of symbolic tuples are in range")
+            yield st, ("ok", V("sym", t=T.F_at(interp.term(st, obj), kt)))
+            return
+    raise Unsupported(f"subscript {obj!r}[{key!r}]")
 
 
 @handler("$call_symbolic")
 def call_symbolic(interp: Interp, st: St, f: V, args, kwargs):
+    if f.tag and f.tag[0] == "symmethod":
+        yield from call_symmethod(interp, st, f, args, kwargs)
+        return
     ft = interp.term(st, f)
     disc = interp.ctx.disciplines.get(ft.get_id())
+    if disc is None and z3.is_app(ft):
+        dn = getattr(interp, "decl_disciplines", {}).get(ft.decl().name())
+        if dn is not None:
+            disc = get_discipline(dn)
     if disc is None:
         raise Unsupported(f"call of symbolic callable {f!r} without a declared discipline")
     interp.ctx.assume_note(disc.note)
@@ -197,6 +248,11 @@ def getattr_(interp: Interp, st: St, obj: V, name: str):
         return
     if obj.tag and obj.tag[0] == "attrs" and name in obj.tag[1]:
         yield st, ("ok", obj.tag[1][name])
+        return
+    if k in ("sym",) and name in interp.method_disciplines:
+        v = V("sym", t=interp.ctx.fresh_val("meth_" + name))
+        v.tag = ("symmethod", obj, name)
+        yield st, ("ok", v)
         return
     if k in ("sym",):
         t = interp.term(st, obj)
@@ -1049,3 +1105,26 @@ def call_const_symbolic(interp: Interp, st: St, o, args, kwargs):
             yield st, ("ok", V("ref", hid))
             return
     raise Unsupported(f"call of {o!r} on symbolic arguments")
+
+
+import itertools as _itertools
+
+
+@handler(_itertools.islice)
+def b_islice(interp, st, args, kwargs):
+    """islice(seq, start, None) over a symbolic sequence"""
+    if len(args) != 3 or not (args[2].kind == "const" and args[2].d is None):
+        raise Unsupported("islice form")
+    seq, start = args[0], args[1]
+    pos = start.d if start.kind == "int" else z3.IntVal(start.d) if start.kind == "const" else None
+    if pos is None:
+        raise Unsupported("islice start")
+    for s, r in symbolic_iter(interp, st, seq):
+        if r[0] != "ok":
+            yield s, r
+            continue
+        it = r[1].d
+        ni = SeqIter(it.seq, pos=pos, elem_in_D=it.elem_in_D, elem_fn=it.elem_fn)
+        ni.len_term = it.len_term
+        ni.clamp = True
+        yield s, ("ok", V("iter", ni))
